@@ -23,7 +23,7 @@ CHECKS = {
  "C03": dict(engine=E1, cat="exploration", ref="§4 C03",
    technique="property-based testing with steered histories (counts at bound-1/bound/bound+1) plus an exhaustively enumerated boundary grid; oracle = reference model verdict and set of named expectations",
    text="Histories are synthesised so that every pattern lands one below, at or one above its bound (every subset of violated expectations occurs); the real verdict (drop / verify() / report()) must equal the model's in both directions and the failure text must name exactly the violated patterns/methods. The one-pattern boundary grid (entry form x quantifier kind x bound 0..3 x count x route x strict/partial) is enumerated exhaustively.",
-   note="wide-clause-lists: steered histories over up to 16 clauses (real tuples); verification through drop / verify() / report() / no_verify_in_drop()+verify(); " + DYN + "; report() is judged by its ExitCode; only the identity named by each line is compared, not wording or numbers"),
+   note="racing-*: every schedule of 2-3 threads x 1-2 calls (sampled to 4x3) on one pattern quantified n_times(N) / n_times(N+1) for N calls (C10's scheduler): only the count can go wrong, the verdict after join must be silent / name exactly that pattern; a quarter of the generated calls is made by a destructor during the unwinding of a caught user panic; wide-clause-lists: steered histories over up to 16 clauses (real tuples); verification through drop / verify() / report() / no_verify_in_drop()+verify(); " + DYN + "; report() is judged by its ExitCode; only the identity named by each line is compared, not wording or numbers"),
  "C04": dict(engine=E1, cat="exploration", ref="§4 C04",
    technique="property-based testing: model-guided random walks over generated ordered clause sequences, plus prefix x next-call enumeration per generated configuration; oracle = global slot-sequence model",
    text="Generated next_call sequences over several methods (counts 0..3, chains inside a slot range) interleaved with unordered clauses; histories follow the expected sequence with 80% probability and otherwise deviate; per configuration every accepted prefix is extended by every possible next call. Accepted calls must return the slot's response, the first deviation must panic, unordered calls must not move the sequence.",
@@ -64,7 +64,7 @@ CHECKS = {
 
  "C05": dict(engine="E2 program generation (harness/progen)", cat="exploration", ref="§4 C05",
    technique="grammar-based program generation (proptest strategy over trait ASTs) -> generated crate -> observations vs generator-side expectation, manual shrinking across the compile boundary",
-   text="Hundreds (quick) to ~16k (thorough) generated #[unimock] traits (7 receiver kinds x 0-5 parameters of 15 kinds with adjacent parameters often sharing a type x 6 return kinds x sync/async fn/impl Future/#[async_trait] x module/flattened/hidden api x method position, a twin method of identical signature next to it) are compiled against /repo and executed: the answer / real function also logs a receiver-identity probe (address equality, Rc/Arc strong_count, verify() for by-value self); a logging matcher and a logging, mutating, injective answer function must have seen exactly the caller's arguments in declaration order, the result and the caller's &mut variables must be what the answer produced, futures must not evaluate before / without a poll.",
+   text="Hundreds (quick) to ~16k (thorough) generated #[unimock] traits (7 receiver kinds x 0-5 parameters of 15 kinds with adjacent parameters often sharing a type x 6 return kinds x sync/async fn/impl Future/#[async_trait] x module/flattened/hidden api x method position, a twin method of identical signature next to it) are compiled against /repo and executed: the answer / real function also logs a receiver-identity probe (address equality, Rc/Arc strong_count, verify() for by-value self); a logging matcher and a logging, mutating, injective answer function must have seen exactly the caller's arguments in declaration order, the result and the caller's &mut variables must be what the answer produced, futures must not evaluate before / without a poll. Optional dimensions: ordered clause n_times(2) called twice, the method a provided one (its body must not run), the (sync) call made by a destructor while the thread unwinds from a caught user panic.",
    note="shapes rustc rejects are outside the property's domain (counted in evidence; > 5% rejected = exit 2); generated values' Debug strings are the channel of observation"),
  "C06": dict(engine="E2 program generation (harness/progen)", cat="exploration", ref="§4 C06",
    technique="grammar-based generation of matching! patterns, exhaustive evaluation over a finite argument domain, oracle = own pattern interpreter cross-checked by a native Rust match in the generated program",
@@ -72,11 +72,11 @@ CHECKS = {
    note="type-directed grammar: only patterns the macro accepts for the argument type are generated (rejections counted); rustc's match semantics trusted for the interpreter cross-check"),
  "C15": dict(engine="E2 program generation (harness/progen)", cat="exploration", ref="§4 C15",
    technique="grammar-based generation of default bodies (expression grammar) and mixed direct/delegated histories; oracle = generator-side inlining of the body",
-   text="Generated traits whose provided method calls 0-3 required methods with argument-derived values, for 8 receiver situations (&self, &mut self, self, Rc/Arc shared and sole owner, Pin<&mut Self>), required methods unordered with exact counts or as one ordered sequence, histories mixing direct and delegated calls, applies_default_impl() clauses, strict and partial mocks: the arguments seen by the required patterns, every result and the final verification must equal what inlining the body predicts.",
+   text="Generated traits whose provided method calls 0-3 required methods with argument-derived values, for 8 receiver situations (&self, &mut self, self, Rc/Arc shared and sole owner, Pin<&mut Self>), required methods unordered with exact counts or as one ordered sequence, histories mixing direct and delegated calls, applies_default_impl() clauses (counted, catch-all, followed by a later answering clause, `.n_times(k).then().answers(..)`), the provided method optionally generic or carrying its own real function in unmock_with (which must not run), strict and partial mocks: the arguments seen by the required patterns, every result and the final verification must equal what inlining the body predicts.",
    note="clause lists of run-time length use the DynClause hook; rejected shapes counted"),
  "C16": dict(engine="E2 program generation (harness/progen)", cat="exploration", ref="§4 C16",
    technique="grammar-based generation of unmock_with registrations (path / path(permuted params) / _) per method position, recording real functions, recursion through the mock",
-   text="Generated traits of 1-4 required or provided (default body) methods with individual registrations, &self/&mut self, sync/async/impl Future, optionally after a caught mock-induced panic on the same mock, resolved to the real implementation through partial fall-through (unmentioned / unmatched) or applies_unmocked(): exactly one invocation of the right function with self and the arguments in registered order, result returned unchanged, panic naming Trait::method when nothing is registered; recursive real functions (depth 0-6) call back into the same mock whose counted base-case pattern must verify.",
+   text="Generated traits of 1-4 required or provided (default body) methods with individual registrations, &self/&mut self, sync/async/impl Future, optionally after a caught mock-induced panic on the same mock, resolved to the real implementation through partial fall-through (unmentioned / unmatched) or applies_unmocked() (optionally quantified n_times(q) with q earlier calls, the observed call being surplus), optionally next to an ordered clause on an unrelated method: exactly one invocation of the right function with self and the arguments in registered order, result returned unchanged, panic naming Trait::method when nothing is registered; recursive real functions (depth 0-6) call back into the same mock whose counted base-case pattern must verify.",
    note="rejected shapes counted"),
  "C17": dict(engine="E2 program generation (harness/progen)", cat="exploration", ref="§4 C17",
    technique="grammar-based generation of return types and values, round-trip oracle (Debug rendering computed independently by the generator)",
@@ -93,7 +93,7 @@ CHECKS = {
    note="sub-trees are wrapped in the DynClause hook, nodes are production tuple impls; the 'return cannot be produced in the current feature set' case needs a no-mutex build and is only exercised by the thorough nostd variant when present"),
  "C20": dict(engine="E1 differential (harness/rt)", cat="exploration", ref="§4 C20",
    technique="differential property-based testing: generated scripts replayed by the mocked required methods vs a hand-written struct implementing the upstream trait with the same script, driven through upstream provided methods; wiring sweep enumerating every method of every mirrored trait (required, and provided mocked directly) on strict and partial mocks",
-   text="On strict and on partial mocks: scripts of chunk sizes, short transfers, Interrupted/other errors and payloads are replayed through write_all, write_fmt, write_vectored, read_exact, read_to_end, read_to_string, read_vectored, read_line, read_until, rewind, stream_position, Hasher::write_u8..isize, format! with width/fill, DelayNs::delay_us/ms (incl. the overflow-splitting range), OutputPin::set_state, StatefulOutputPin::toggle, I2c read/write/write_read, SpiDevice read/write/transfer/transfer_in_place, SetDutyCycle provided methods: results, buffers and the sequence of required-method calls must equal those of the plain struct. 33 wiring probes configure one entry point at a time (embedded-hal neighbours of equal signature, SpiBus, std io provided methods mocked directly, Debug/Display, Error::source, tokio and futures-io poll_* methods and vectored defaults).",
+   text="On strict and on partial mocks, with 0-16 further clones alive during the drive, optionally catch-all applies_default_impl() clauses, ended by drop / report() / verify(): scripts of chunk sizes, short transfers, Interrupted/other errors and payloads are replayed through write_all, write_fmt, write_vectored, read_exact, read_to_end, read_to_string, read_vectored, read_line, read_until, rewind, stream_position, Hasher::write_u8..isize, format! with width/fill, DelayNs::delay_us/ms (incl. the overflow-splitting range), OutputPin::set_state, StatefulOutputPin::toggle, I2c read/write/write_read, SpiDevice read/write/transfer/transfer_in_place, SetDutyCycle provided methods: results, buffers and the sequence of required-method calls must equal those of the plain struct. 33 wiring probes configure one entry point at a time (embedded-hal neighbours of equal signature, SpiBus, std io provided methods mocked directly, Debug/Display, Error::source, tokio and futures-io poll_* methods and vectored defaults).",
    note="upstream provided methods are the reference on both sides; embedded-hal error paths are not scripted"),
 }
 
